@@ -90,11 +90,7 @@ theorem last_use_revokes (n : Nat) (hn : 1 ≤ n) (kinds : List Kind) (hk : AllF
   have inv := reach_inv false n hn kinds (wf_of hk) sched
   obtain ⟨k, hkt⟩ := kind_of_thread false n kinds sched t _ ht
   have l := inv.loc t _ k ht hkt
-  have hkm : k ∈ kinds := by
-    have := List.mem_of_getElem? hkt
-    rwa [show (run sched (initW false n kinds)).kinds = kinds from run_kinds sched _] at this
-  have hno : (scriptOf k).defer ≠ .noop := by have := hk k hkm; simp [firstParty] at this; exact this.2
-  refine ⟨l.lastq r rfl hno, ?_⟩
+  refine ⟨l.lastq r rfl, ?_⟩
   have : (run sched (init n kinds)).sh.numUses = pending := l.lastp rfl
   simp [Shared.hidden, this, pending]
 
